@@ -121,6 +121,35 @@ func init() {
 		}}
 	replayFamilies[modPath+"/internal.compareNumbers"] = cmp
 	replayFamilies[modPath+"/internal.Compare"] = cmp
+	rangeOf := func(vals map[string]string, p string) (map[string]interface{}, bool) {
+		s, ok1 := valToJSON(vals["(select F_index_Range_Start@0 "+p+")"], vals, "")
+		e, ok2 := valToJSON(vals["(select F_index_Range_End@0 "+p+")"], vals, "")
+		if !ok1 || !ok2 {
+			return nil, false
+		}
+		return map[string]interface{}{"Start": s, "End": e,
+			"SI": vals["(select F_index_Range_StartIncluded@0 "+p+")"] == "true",
+			"EI": vals["(select F_index_Range_EndIncluded@0 "+p+")"] == "true"}, true
+	}
+	replayFamilies[modPath+"/index.(*Range).IsEmpty"] = &replayFamily{pkgDir: "index", testFile: "index_replay_test.go", testName: "TestVerifReplayRange",
+		build: func(r *Result, vals map[string]string) (interface{}, bool) {
+			rg, ok := rangeOf(vals, "p!r")
+			v, ok2 := valToJSON(vals["g!v"], vals, "g!v")
+			if !ok || !ok2 {
+				return nil, false
+			}
+			return []map[string]interface{}{{"Op": "isempty", "R": rg, "V": v}}, true
+		}}
+	replayFamilies[modPath+"/index.(*Range).Intersect"] = &replayFamily{pkgDir: "index", testFile: "index_replay_test.go", testName: "TestVerifReplayRange",
+		build: func(r *Result, vals map[string]string) (interface{}, bool) {
+			rg, ok := rangeOf(vals, "p!r")
+			rg2, ok3 := rangeOf(vals, "p!r2")
+			v, ok2 := valToJSON(vals["g!v"], vals, "g!v")
+			if !ok || !ok2 || !ok3 {
+				return nil, false
+			}
+			return []map[string]interface{}{{"Op": "intersect", "R": rg, "R2": rg2, "V": v}}, true
+		}}
 }
 
 // parseGetValue reads the answer of (get-value (t1 t2 ...)): ((t1 v1) (t2 v2) ...).
@@ -160,7 +189,16 @@ func runValueReplay(P *Prog, r *Result) (out string, failed bool, ran bool) {
 	data, _ := json.Marshal(input)
 	inFile := filepath.Join(tmp, "input.json")
 	os.WriteFile(inFile, data, 0o644)
-	ov := map[string]map[string]string{"Replace": {filepath.Join(P.RepoDir, fam.pkgDir, "zz_verif_replay_test.go"): filepath.Join(P.VerifDir, "replay", fam.testFile)}}
+	tmpl, _ := os.ReadFile(filepath.Join(P.VerifDir, "replay", "refspec_test.go.tmpl"))
+	pkgName := filepath.Base(fam.pkgDir)
+	if fam.pkgDir == "." {
+		pkgName = "clover"
+	}
+	refFile := filepath.Join(tmp, "refspec_test.go")
+	os.WriteFile(refFile, []byte(strings.Replace(string(tmpl), "PKGNAME", pkgName, 1)), 0o644)
+	ov := map[string]map[string]string{"Replace": {
+		filepath.Join(P.RepoDir, fam.pkgDir, "zz_verif_replay_test.go"):  filepath.Join(P.VerifDir, "replay", fam.testFile),
+		filepath.Join(P.RepoDir, fam.pkgDir, "zz_verif_refspec_test.go"): refFile}}
 	ovData, _ := json.Marshal(ov)
 	ovFile := filepath.Join(tmp, "overlay.json")
 	os.WriteFile(ovFile, ovData, 0o644)
@@ -184,5 +222,11 @@ func runValueReplay(P *Prog, r *Result) (out string, failed bool, ran bool) {
 		}
 	}
 	failed = strings.Contains(o, "REPLAY FAIL")
+	if len(keep) == 0 {
+		if len(o) > 1500 {
+			o = o[:1500]
+		}
+		return fmt.Sprintf("input: %s\nthe replay test did not run:\n%s", data, o), false, true
+	}
 	return fmt.Sprintf("input: %s\n%s", data, strings.Join(keep, "\n")), failed, true
 }
